@@ -225,6 +225,33 @@ func c20HostFunctions(c *ev.Ctx) {
 			}
 		}
 	}
+	// a host function may keep the slice it was given (return it inside an array, log it):
+	// later calls must not overwrite it
+	if c.Want("hostfn/retained-arguments") {
+		for _, noOpt := range []bool{false, true} {
+			var kept [][]object.Object
+			keep := func(args []object.Object) object.Object {
+				kept = append(kept, args)
+				return &object.Array{Elements: args}
+			}
+			script := `a = keep(1, 2); b = keep(3, 4); c2 = keep("p", "q"); d = keep(5); e = keep(len("xyz"), upper("u")); f = uf(7, 8); return [a, b, c2, d, e, f]; function uf(m, n) { return keep(m, n); }`
+			evr, err := eng.New(script, eng.Options{NoOptimize: noOpt, Funcs: map[string]func([]object.Object) object.Object{"keep": keep}})
+			c.Case("hostfn/retained-arguments"+fmt.Sprint(noOpt), true)
+			if err != nil {
+				continue
+			}
+			got := evr.Exec(nil).Desc()
+			want := "ARRAY:[[1, 2], [3, 4], [p, q], [5], [3, U], [7, 8]]"
+			var log []string
+			for _, k := range kept {
+				log = append(log, eng.Describe(&object.Array{Elements: k}))
+			}
+			wantLog := "ARRAY:[1, 2] ARRAY:[3, 4] ARRAY:[p, q] ARRAY:[5] ARRAY:[3, U] ARRAY:[7, 8]"
+			if got != want || strings.Join(log, " ") != wantLog {
+				c.Violation("hostfn/retained-arguments", "arguments of an earlier call overwritten", map[string]interface{}{"summary": fmt.Sprintf("%s (noopt=%v) gives %s, expected %s; the argument lists the host function kept now read %s", script, noOpt, got, want, strings.Join(log, " ")), "script": script})
+			}
+		}
+	}
 	// a host function replaces a built-in of the same name; calls in loops are counted
 	if c.Want("hostfn/loop") {
 		count := 0
